@@ -51,11 +51,36 @@ def mul12 (x : F32) : F32 :=
   let p := x.m * C12
   if p < 140737488355328 then norm (rneShift p 23) x.e else norm (rneShift p 24) (x.e + 1)
 
+/-- 4096 -/
+def f4096 : F32 := ⟨8388608, 12⟩
+
 /-- `int(leafSize)` -/
 def trunc (x : F32) : Nat := if 23 ≤ x.e then x.m * 2 ^ (x.e - 23) else x.m / 2 ^ (23 - x.e)
 
-/-- 4096 -/
-def f4096 : F32 := ⟨8388608, 12⟩
+/-- `a / b` rounded to nearest, ties to even -/
+def rneDiv (a b : Nat) : Nat :=
+  let q := a / b
+  let r := a % b
+  if b < 2 * r ∨ (2 * r = b ∧ q % 2 = 1) then q + 1 else q
+
+/-- the float32 nearest to the rational `num / den` (for `num / den ≥ 1`; below 1 the result has
+    exponent field 0 and is only ever compared with 4096) -/
+def ofRat (num den : Nat) : F32 :=
+  let e := Nat.log2 (num / den)
+  if e ≤ 23 then norm (rneDiv (num * 2 ^ (23 - e)) den) e
+  else norm (rneDiv num (den * 2 ^ (e - 23))) e
+
+/-- `float32(len(entries))` -/
+def ofNat (n : Nat) : F32 := ofRat n 1
+
+/-- `x / 3500` in float32 -/
+def div3500 (x : F32) : F32 :=
+  if 23 ≤ x.e then ofRat (x.m * 2 ^ (x.e - 23)) 3500 else ofRat x.m (3500 * 2 ^ (23 - x.e))
+
+/-- `leafSize = float32(len(entries)) / 3500; if leafSize < 4096 { leafSize = 4096 }` -/
+def init (n : Nat) : F32 :=
+  let y := div3500 (ofNat n)
+  if y.e < 12 then f4096 else y
 
 def iter (k : Nat) (x : F32) : F32 := (List.range k).foldl (fun a _ => mul12 a) x
 
